@@ -3,6 +3,7 @@ from rules import envelope as E
 from rules import durability as D
 from rules import tables as T
 from rules import recovery as R
+from rules import payload as O
 
 
 def run(ctx):
@@ -13,6 +14,7 @@ def run(ctx):
     ctx.run(T.tbl9_catalogue_codec)
     ctx.run(R.pan1_awaited_jobs_report_failures)
     ctx.run(D.erv4_no_error_discarded)
+    ctx.run(O.pan6_cold_load_failures_are_values)
     return ctx.finish(
         'Static analysis: (a) MIR dataflow/dominance on the blob envelope - the payload is returned '
         'only after minimum-length, version, total-length and SHA-256 checks over exactly the '
